@@ -88,7 +88,7 @@ def gen_cases(ctx):
         rng = ctx.rng(4, i)
         c = drive.random_history_case(rng)
         c["kind"] = "failpoint"
-        c["fp"] = ["raise_in_velocity_gradient", "switch_regime", "raise_in_position"][i % 3]
+        c["fp"] = ["raise_in_velocity_gradient", "switch_regime", "raise_in_position", "raise_in_get_regime", "raise_in_apply_gbs"][i % 5]
         c["n"] = int(rng.choice([2, 10, 40]))
         c["N"] = int(rng.choice([2, 4]))
         c["fail_update"] = int(rng.integers(c["N"]))
@@ -305,6 +305,25 @@ def _failpoint(ctx, pydrex, case):
                         fired["n"] += 1
                         raise _Injected("failpoint in position callable")
                     return _f(t)
+            elif fp == "raise_in_get_regime":
+                def get_regime(t, x):
+                    calls["n"] += 1
+                    if calls["n"] >= case["fail_call"]:
+                        fired["n"] += 1
+                        raise _Injected("failpoint in get_regime callable")
+                    return core.DeformationRegime(H.regime)
+            elif fp == "raise_in_apply_gbs":
+                # fault injected *inside* the update, after at least one solver step has been taken
+                orig_gbs = pydrex.utils.apply_gbs
+
+                def failing_gbs(*args, **kwargs):
+                    calls["n"] += 1
+                    if calls["n"] >= 1 + case["fail_call"] % 4:
+                        fired["n"] += 1
+                        raise _Injected("failpoint in apply_gbs")
+                    return orig_gbs(*args, **kwargs)
+
+                pydrex.utils.apply_gbs = failing_gbs
             else:
                 mid = a + 0.5 * (b - a)
 
@@ -318,6 +337,9 @@ def _failpoint(ctx, pydrex, case):
                 raised = None
             except Exception as e:
                 raised = e
+            finally:
+                if fp == "raise_in_apply_gbs":
+                    pydrex.utils.apply_gbs = orig_gbs
             if fired["n"] == 0:
                 ctx.count("failpoint_not_reached")
                 ctx.case(case, nontrivial=False)
